@@ -106,3 +106,8 @@ def HEX_MAX(a):
 
 def HEX_TOBIN(m, start, end, pad):
     return bytes(m.get(i, pad) for i in range(start, end + 1))
+
+
+def in_version_grammar(s):
+    import re
+    return re.fullmatch(r"[0-9]+(\.[0-9]+)*(-(alpha|beta|rc)(\.[0-9]+)?)?", s) is not None
